@@ -48,11 +48,12 @@ theorem C15_decode_encode (f : OdsFeatures) (hf : f.rowRuns = false) (d : OdsDoc
     simp [this]
   rw [hget]
   simp only []
-  have hrows : (encodeSheet f ("Sheet" ++ toString (k - 1 + 1)) (d[k - 1]'(by omega))).childrenTagged "table:table-row" =
+  have hrows : tableRowsIn (encodeSheet f ("Sheet" ++ toString (k - 1 + 1)) (d[k - 1]'(by omega))).children =
       (d[k - 1]'(by omega)).map (fun r => encodeRow f r 1) := by
-    unfold encodeSheet Xml.childrenTagged Xml.children
+    unfold encodeSheet Xml.children
     simp only [hf, Bool.false_eq_true, if_false]
-    exact filter_tag_map _ "table:table-row" _ (fun a => rfl)
+    have := tableRowsIn_rows f ((d[k - 1]'(by omega)).map (fun r => (r, 1)))
+    simpa [List.map_map, Function.comp_def] using this
   rw [hrows, odsRowsOf_encoded f _ hsmall hcells]
 
 /-- Requesting a sheet the document does not have fails with a data-format error. -/
@@ -84,6 +85,16 @@ example : odsRows (some (encodeDoc { whitespace := true } [[["a  b\tc".toList]]]
 example : odsRows (some (encodeDoc { spans := true } [[[['a']]]])) 1 = .rows [[some ['a']]] := by decide +kernel
 example : odsRows (some (encodeDoc { paragraphs := true, whitespace := true } [[["l1\nl  2".toList]]])) 1 = .rows [[some "l1\nl  2".toList]] := by
   decide +kernel
+
+/-- **Rows inside row containers.** The rows of a sheet that are wrapped into `table:table-header-rows`, `table:table-row-group`
+(also nested) and `table:table-rows` are found in document order (before 7fe378e they were skipped: only direct children of the
+table were read).  `groupRows` is the wrapping the correspondence uses. -/
+theorem C15_row_containers (f : OdsFeatures) (rows : List (List Str × Nat)) :
+    tableRowsIn (groupRows (rows.map (fun p => encodeRow f p.1 p.2))) = rows.map (fun p => encodeRow f p.1 p.2) :=
+  tableRowsIn_groupRows f rows
+
+example : odsRows (some (regroupDoc (encodeDoc { colRuns := true } [[[['a']], [['b'], ['b']], [['c']], [['d']], [['e']]]]))) 1
+    = .rows [[some ['a']], [some ['b'], some ['b']], [some ['c']], [some ['d']], [some ['e']]] := by decide +kernel
 
 /-- non-vacuity: column runs and spans on, two sheets: the hypotheses of the theorem are met -/
 example : odsRows (some (encodeDoc { colRuns := true, spans := true } [[[['x']]], [[['a'], ['a'], ['a'], []], [['b']]]])) 2
